@@ -493,6 +493,13 @@ def run(ctx: Ctx):
     cats = dict(rules_exact=h_rules_exact, rules_total=h_simple('rules_total'), rules_local=h_simple('rules_local'),
                 sound_core=h_simple('sound_core'), __issue__=h_issue)
     res = logicobl.decide_rows(ctx, cats, THMS, extra_modules=['Ptx.Props.C04'])
+    # the rule rows / frame rules extracted with the lexical item cache off (equal items are distinct objects) must be the
+    # ones the kernel has just checked
+    off4 = [(lg, k, det) for lg, k, det in logicobl.cache_off_diff() if k in ('rules', 'frame_rules', 'trunk', 'missing')]
+    for lg, k, det in off4:
+        ctx.fail(f'C04:cache-off:{lg}:{k}', f'{lg}: with ITEM_CACHE_SIZE=0 the extracted {k} differ from the (kernel-checked) default ones: {det[:400]}',
+                 dict(logic=lg, field=k, env=dict(ITEM_CACHE_SIZE='0'), detail=det), found_input=True)
+    ctx.add_cov(cache_off_differences=len(off4))
     if res.ok or not any('Drv' in f or 'Driver' in f for f, _ in getattr(res, 'failed', [])):
         try:
             frames_part(ctx, data)
